@@ -127,7 +127,7 @@ func (c c16case) String() string { return c.Caller + "/" + c.Msg + "/" + c.State
 
 func c16Table() []c16case {
 	var out []c16case
-	for _, caller := range []string{"peer", "client-with-all-permissions", "empty", "unknown", "peer-name-uppercase", "peer-name-with-suffix"} {
+	for _, caller := range []string{"peer", "peer-not-in-generation", "client-with-all-permissions", "empty", "unknown", "peer-name-uppercase", "peer-name-with-suffix"} {
 		for _, msg := range []string{"prepare", "execute", "contribute", "commit", "abort"} {
 			for _, st := range []string{"none", "prepared", "executed", "committed", "aborted", "expired"} {
 				out = append(out, c16case{caller, msg, st})
@@ -161,11 +161,11 @@ func runDKGCallers(t *testing.T, rc *RunCtx) {
 	s := NewSched(rc, SchedCfg{MaxSteps: 20000})
 	defer s.Close()
 	timeout := 70 * time.Second
-	c := NewCluster(t, rc, s, ClusterCfg{IDs: []uint64{1, 2, 3}, Timeout: timeout, Perms: FullPermissions("client1", "SIGNER-02", "signer-02x")})
+	c := NewCluster(t, rc, s, ClusterCfg{IDs: []uint64{1, 2, 3, 4}, Timeout: timeout, Perms: FullPermissions("client1", "SIGNER-02", "signer-02x")})
 	defer c.Close()
 	co := &coordinator{c: c}
-	parts := c.Nodes
-	target := parts[1] // signer-02, id 2
+	parts := c.Nodes[:3] // signer-04 is a configured peer that takes no part in the generation
+	target := parts[1]   // signer-02, id 2
 	legit := parts[0].Name
 	acct := "Wallet 3/acct16"
 	const th = 2
@@ -226,8 +226,9 @@ func runDKGCallers(t *testing.T, rc *RunCtx) {
 		time.Sleep(timeout + time.Second)
 		rc.Stats.Inc("sim_time_ms", int64((timeout+time.Second)/time.Millisecond))
 	}
-	caller := map[string]string{"peer": parts[2].Name, "client-with-all-permissions": "client1", "empty": "", "unknown": "nobody", "peer-name-uppercase": "SIGNER-02", "peer-name-with-suffix": "signer-02x"}[tc.Caller]
+	caller := map[string]string{"peer": parts[2].Name, "peer-not-in-generation": c.Nodes[3].Name, "client-with-all-permissions": "client1", "empty": "", "unknown": "nobody", "peer-name-uppercase": "SIGNER-02", "peer-name-with-suffix": "signer-02x"}[tc.Caller]
 	isPeer := tc.Caller == "peer"
+
 	// A contribution that would verify at the target: a dishonest-but-consistent one for the target's id.
 	sec, vv := maliciousContribution(target.ID, th)
 	var err error
@@ -247,6 +248,22 @@ func runDKGCallers(t *testing.T, rc *RunCtx) {
 	rc.Logf("%s: caller %q -> err=%v", tc, caller, err)
 	if p := c.anyPanic(); p != "" {
 		rc.Violate("C16", "panic", fmt.Sprintf("%s: %s", tc, p), 0)
+		return
+	}
+	if tc.Caller == "peer-not-in-generation" {
+		// A configured peer outside the generation: its protocol messages are a peer's, but a contribution of
+		// its own must never be answered with a participant's share.
+		if cres != nil && err == nil && len(cres.GetSecret()) > 0 {
+			pk := pubOfSecret(cres.GetSecret())
+			for _, n := range parts {
+				if bytes.Equal(pk, evalAt(cres.GetVerificationVector(), n.ID)) {
+					rc.Violate("C16", "share-of-another-participant", fmt.Sprintf("%s: the reply to peer %s (id %d, not a participant) carries the share of participant %d", tc, c.Nodes[3].Name, c.Nodes[3].ID, n.ID), 0)
+				}
+			}
+		}
+		if tc.Msg == "contribute" {
+			rc.Stats.Inc("outsider_peer_contributions", 1)
+		}
 		return
 	}
 	if isPeer {
